@@ -15,7 +15,7 @@ RULE = ('fault enumeration: every fault class of the statement injected at every
         'length; mixed-sign fractions at each position; malformed --lattice strings; oracle: the entry point '
         'raises / exits non-zero with a non-empty message, a normally finished conversion is the violation; '
         'the un-faulted base deck must convert (counted separately); distinct = deck text + options; '
-        'non-trivial = faulted state (base decks are the trivial ones); also: LAT values other than 1, 2; U / FILL / LAT / TRCL data cards; undefined and doubly defined cell, surface and TR numbers; LIKE lattices without their own --lattice; facet faults in cells moved by TRCL / a FILL transformation')
+        'non-trivial = faulted state (base decks are the trivial ones); also: LAT values other than 1, 2; U / FILL / LAT / TRCL data cards; undefined and doubly defined cell, surface and TR numbers; LIKE lattices without their own --lattice; facet faults in cells moved by TRCL / a FILL transformation; X/Y/Z cards of 3, 5, 6 entries whose points share a coordinate or a radius')
 ASSUMPTIONS = [
     'parameter counts per mnemonic from the MCNP manual; the 5-entry torus accepted by the bundled MIP library '
     'and the 4-entry form of P are not counted as faults',
